@@ -333,7 +333,10 @@ def smd_build(spec: dict):
         vs = [Vertex(Vec(*(v['pos'] + [0.0] * 3)[:3]), Vec(*(v['norm'] + [0.0] * 3)[:3]), v['u'], v['v'], links(v)) for v in t['verts']]
         while len(vs) < 3:
             vs.append(Vertex(Vec(), Vec(), 0.0, 0.0, [(bl[0], 1.0)]))
-        mat = t['mat'].strip('/ ') or 'm'       # the reader strips the line and trailing slashes
+        mat = t['mat']
+        while '//' in mat:                      # '//' starts a comment
+            mat = mat.replace('//', '/')
+        mat = mat.strip('/ ') or 'm'            # the reader strips the line and trailing slashes
         tris.append(Triangle('end_' if mat == 'end' else mat, *vs[:3]))
     return Mesh(bones, anim, tris)
 
